@@ -272,7 +272,6 @@ ENTROPY = Entropy()
 
 
 # ---------------------------------------------------------------------------
-_BRIDGE_ADDR = __import__("re").compile(r"'127\.\d{1,3}\.\d{1,3}\.25[1-4]'")
 _LOOPBACK = __import__("re").compile(r"'127\.\d{1,3}\.\d{1,3}\.\d{1,3}'")
 
 
@@ -288,7 +287,8 @@ class NetGuard:
         self.allow_loopback = False
         self._installed = False
         self.exempt_threads: t.Set[int] = set()  # threads of the reference DC (server side), never the client's
-        self.bridge_active = 0  # > 0 while a scripted transport is installed: its loopback bridge (127.x.y.251-254) is not "the network"
+        self.bridge_active = 0  # > 0 while a scripted transport is installed: its loopback bridge is not "the network"
+        self.bridge_addr: t.Optional[str] = None  # set by transport.Bridge when its listener exists
 
     def install(self) -> None:
         if self._installed:
@@ -304,7 +304,7 @@ class NetGuard:
 
             if threading.get_ident() in self.exempt_threads:
                 return
-        if self.bridge_active and _BRIDGE_ADDR.search(repr(args)):
+        if self.bridge_active and self.bridge_addr and f"'{self.bridge_addr}'" in repr(args):
             return
         if self.allow_loopback:
             s = repr(args)
